@@ -1,7 +1,7 @@
 (* WireDec: zeroconf._protocol.incoming.DNSIncoming, statement by statement.
    A state monad with exceptions carries (offset, name cache); the recursion of
    _decode_labels_at_offset costs one Python frame per pointer hop, [frames] of which are available. *)
-From ZC Require Import Model.Base Model.PyRec Model.Dict Model.Utf8 Gen.Const Gen.Shapes.
+From ZC Require Import Model.Base Model.PyRec Model.Dict Model.Utf8 Gen.Const Gen.Sites Gen.Shapes.
 
 Record dstate := { d_off : Z; d_cache : list (Z * list text) }.
 
@@ -45,8 +45,9 @@ Section Dec.
   Definition cache_get_labels (c : list (Z * list text)) (k : Z) : option (list text) := d_get Z.eqb c k.
 
   (* one frame of _decode_labels_at_offset; [hops] bounds the recursion (frames left) *)
-  Fixpoint decode_labels (hops : nat) (off : Z) (labels : list text) (seen : list Z) {struct hops}
-    : M (Z * list text * list Z) :=
+  Definition decode_labels :=
+    Eval cbv beta match delta [sop_apply site_dec_in_packet site_dec_is_label site_dec_is_label_rhs site_dec_is_reserved site_dec_is_reserved_rhs site_dec_link_beyond site_dec_pointer_budget site_dec_label_budget] in
+    fix decode_labels (hops : nat) (off : Z) (labels : list text) (seen : list Z) {struct hops} : M (Z * list text * list Z) :=
     match hops with
     | O => raise RecursionError
     | S hops' =>
@@ -55,19 +56,19 @@ Section Dec.
            match fuel with
            | O => raise OtherError                     (* out of fuel: proved unreachable (C02_total), off grows by >= 1 per turn *)
            | S fuel' =>
-               if negb (off <? dlen) then raise IncomingDecodeError   (* "Corrupt packet" *)
+               if negb (sop_apply site_dec_in_packet off dlen) then raise IncomingDecodeError   (* "Corrupt packet" *)
                else
                  length <- byte_at off ;;
                  if length =? 0 then ret (off + C_DNS_COMPRESSION_HEADER_LEN, labels, seen)
-                 else if length <? 64 then
+                 else if sop_apply site_dec_is_label length site_dec_is_label_rhs then
                    let label_idx := off + C_DNS_COMPRESSION_HEADER_LEN in
                    loop fuel' (off + C_DNS_COMPRESSION_HEADER_LEN + length)
                         (labels ++ [utf8_decode_replace (slice label_idx (label_idx + length))]) seen
-                 else if length <? 192 then raise IncomingDecodeError
+                 else if sop_apply site_dec_is_reserved length site_dec_is_reserved_rhs then raise IncomingDecodeError
                  else
                    link_data <- byte_at (off + 1) ;;
                    let link := (Z.land length 63) * 256 + link_data in
-                   if link >? dlen then raise IncomingDecodeError
+                   if sop_apply site_dec_link_beyond link dlen then raise IncomingDecodeError
                    else if link =? off then raise IncomingDecodeError
                    else if existsb (Z.eqb link) seen then raise IncomingDecodeError
                    else
@@ -75,7 +76,7 @@ Section Dec.
                      r <- (match cache_get_labels c link with
                            | Some (l0 :: ls) => ret (l0 :: ls, seen)
                            | _ =>
-                               if (Z.of_nat (List.length seen) >=? C_MAX_DNS_LABELS) then raise IncomingDecodeError
+                               if (sop_apply site_dec_pointer_budget (Z.of_nat (List.length seen)) C_MAX_DNS_LABELS) then raise IncomingDecodeError
                                else
                                  let seen' := seen ++ [link] in
                                  x <- decode_labels hops' link [] seen' ;;
@@ -86,7 +87,7 @@ Section Dec.
                            end) ;;
                      let '(linked, seen2) := r in
                      let labels' := labels ++ linked in
-                     if Z.of_nat (List.length labels') >? C_MAX_DNS_LABELS then raise IncomingDecodeError
+                     if sop_apply site_dec_label_budget (Z.of_nat (List.length labels')) C_MAX_DNS_LABELS then raise IncomingDecodeError
                      else ret (off + C_DNS_COMPRESSION_POINTER_LEN, labels', seen2)
            end) (S (length data)) off labels seen
     end.
@@ -100,6 +101,7 @@ Section Dec.
 
   (* _read_name *)
   Definition read_name : M text :=
+    Eval cbv beta match delta [sop_apply site_dec_name_limit] in
     orig <- get_off ;;
     x <- decode_labels frames orig [] [] ;;
     let '(off', labels, _) := x in
@@ -107,7 +109,7 @@ Section Dec.
     c <- get_cache ;;
     _ <- set_cache (d_set Z.eqb c orig labels) ;;
     let name := join_labels labels ++ [46] in
-    if Z.of_nat (length name) >? C_MAX_NAME_LENGTH then raise IncomingDecodeError else ret name.
+    if sop_apply site_dec_name_limit (Z.of_nat (length name)) C_MAX_NAME_LENGTH then raise IncomingDecodeError else ret name.
 
   Definition read_string (n : Z) : M bytes :=
     o <- get_off ;; _ <- set_off (o + n) ;; ret (slice o (o + n)).
@@ -133,12 +135,16 @@ Section Dec.
     | b :: r => bits_of_byte b 8 (window * 256 + i * 8) ++ bits_of_bytes r (i + 1) window
     end.
 
-  Fixpoint read_bitmap_loop (fuel : nat) (endo : Z) (acc : list Z) : M (list Z) :=
+  Definition read_bitmap_loop :=
+
+    Eval cbv beta match delta [sop_apply site_dec_bitmap_more] in
+
+    fix read_bitmap_loop (fuel : nat) (endo : Z) (acc : list Z) {struct fuel} : M (list Z) :=
     match fuel with
     | O => raise OtherError                           (* out of fuel: proved unreachable (C02_total) *)
     | S f =>
         o <- get_off ;;
-        if negb (o <? endo) then ret acc else
+        if negb (sop_apply site_dec_bitmap_more o endo) then ret acc else
         window <- byte_at o ;;
         blen <- byte_at (o + 1) ;;
         _ <- set_off (o + 2 + blen) ;;
